@@ -38,7 +38,11 @@ def none_only(cond, repl, guards):
         if c and c[0] == "cmp" and c[1] == "in" and c[2] == OBJ and c[3][0] == "tuple":
             return set(c[3][1]) <= {NONE, repl}          # Const: None or the constant itself
         return False
-    return (cond is not None and implies_none(cond)) or any(implies_none(g) for g in guards)
+    if (cond is not None and implies_none(cond)) or any(implies_none(g) for g in guards):
+        return True
+    # any other spelling of "None, or the replacement itself" (nested ifs, a shared helper): no feasible case with an object that is neither
+    cases = none_or_equal_cases(list(guards) + ([cond] if cond is not None else []), OBJ, repl)
+    return bool(cases) and (False, False) not in cases and len(cases) < 4
 
 
 def position_adapters(ctx, rule):
